@@ -18,6 +18,7 @@ mod c11;
 mod c12;
 mod c13;
 mod c14;
+mod c18;
 mod alloc;
 
 #[global_allocator]
@@ -59,6 +60,7 @@ fn main() {
     "C12" => c12::run(&ctx),
     "C13" => c13::run(&ctx),
     "C14" => c14::run(&ctx),
+    "C18" => c18::run(&ctx),
     _ => {
       eprintln!("unknown property {}", prop);
       std::process::exit(2);
